@@ -48,6 +48,7 @@ def build_tree_skip_grams(
     labels: array of length (unique_labels)
         This is the array of the labels of the rows and columns of our matrix.
     """
+    adjacency_matrix = scipy.sparse.csr_matrix(adjacency_matrix, dtype=np.float64)
     weights = kernel_function(-np.ones(window_size), *kernel_args)
     count_matrix = adjacency_matrix * weights[0]
     walk = adjacency_matrix
